@@ -18,4 +18,4 @@ def jobs(tier):
     return J
 
 
-META = {'functions': [], 'undecided_part': '', 'trusted_base': ['spec/c11_types.h (C11 6.3.1.1, 6.3.1.8; LP64, signed plain char)']}
+META = {'functions': ['integer_promotion', 'arithmetic_conversion'], 'undecided_part': '', 'trusted_base': ['spec/c11_types.h (C11 6.3.1.1, 6.3.1.8; LP64, signed plain char)']}
